@@ -127,6 +127,8 @@ def materialise(root, entries):
             write_zip(p, e.get("members", []), e.get("compress", False))
             os.chmod(p, e.get("mode", 0o644))
             _utime(p, e)
+        elif k == "h":
+            os.link(os.path.join(root, e["target"]), p)      # a second name of an existing file (same inode)
         elif k == "raw":
             with open(p, "wb") as f:
                 f.write(e["content"])
